@@ -28,6 +28,9 @@ func checkC06(c *Ctx) {
 	// a decoded option is re-emitted under the code it was parsed under (shared with C02-K1)
 	e1ParserTables(c, "C06-K6")
 	c06Narrowing(c)
+	// the value decoded for an option code is exactly the concatenation of the bytes consumed for it (shared C01-K4): a
+	// decoder that stores views of the packet and appends later fragments in place rewrites neighbouring options
+	c09Reassembly2(c, "C06-K8")
 }
 
 // c06CIDR: K2
